@@ -1,0 +1,75 @@
+//! Verification hooks. Compiled only with the cargo feature `verif_hooks`; nothing in the
+//! library calls into this module except the `init_probe` lines in `init.rs`.
+use crate::token::Token;
+use crate::tokenizer::Tokenizer;
+use std::sync::Mutex;
+
+pub use crate::descriptor::DescriptorManager;
+pub use crate::parser::Literal;
+
+/// One token as the private tokenizer produced it.
+#[derive(Clone, Debug)]
+pub struct Tok {
+    pub kind: &'static str,
+    pub text: String,
+    pub start: usize,
+    pub end: usize,
+    /// mantissa and scale of a number token
+    pub number: Option<(i128, u32)>,
+}
+
+/// Drives the private tokenizer over `input` until EOF or the first error. Stops with a token of
+/// kind "runaway" if more tokens than input bytes (+1) were produced.
+pub fn tokenize(input: &str) -> crate::Result<Vec<Tok>> {
+    crate::init::init();
+    let mut tokenizer = Tokenizer::new(input);
+    let mut ans = Vec::new();
+    loop {
+        let token = tokenizer.next()?;
+        let (kind, text, span, number) = match token {
+            Token::EOF => break,
+            Token::Operator(s, span) => ("op", s.to_string(), span, None),
+            Token::Delim(ty, span) => ("delim", ty.string(), span, None),
+            Token::Number(d, span) => ("num", d.to_string(), span, Some((d.mantissa(), d.scale()))),
+            Token::Comma(s, span) => ("comma", s.to_string(), span, None),
+            Token::Bool(b, span) => ("bool", b.to_string(), span, None),
+            Token::String(s, span) => ("str", s.to_string(), span, None),
+            Token::Reference(s, span) => ("ref", s.to_string(), span, None),
+            Token::Function(s, span) => ("func", s.to_string(), span, None),
+            Token::Semicolon(s, span) => ("semi", s.to_string(), span, None),
+        };
+        ans.push(Tok {
+            kind,
+            text,
+            start: span.0,
+            end: span.1,
+            number,
+        });
+        if ans.len() > input.len() + 1 {
+            ans.push(Tok {
+                kind: "runaway",
+                text: String::new(),
+                start: 0,
+                end: 0,
+                number: None,
+            });
+            break;
+        }
+    }
+    Ok(ans)
+}
+
+static INIT_PROBE: Mutex<Option<fn(u8)>> = Mutex::new(None);
+
+/// Installs (or removes) a callback that the lazy initialiser invokes before the first and after
+/// each of the four built-in registration stages (stage 0..=4).
+pub fn set_init_probe(probe: Option<fn(u8)>) {
+    *INIT_PROBE.lock().unwrap() = probe;
+}
+
+pub(crate) fn init_probe(stage: u8) {
+    let probe = *INIT_PROBE.lock().unwrap();
+    if let Some(f) = probe {
+        f(stage);
+    }
+}
